@@ -8,7 +8,7 @@ from util import call, quiet
 
 REQUIRED_THEOREMS = ['Usid.C08.indices_formula', 'Usid.C08.each_combination_once', 'Usid.C08.position_is_transpose',
                      'Usid.C08.written_slowest_first', 'Usid.C08.make_indices_matrix']
-RULE = ('[also: the sequence of the caller re-read after the call and the same sequence written a second time] [also: values not increasing / not distinct; defaults relied upon, tuples, a bare Dimension / int, Dimension(int length), base_name, verbose, a nested parent; thorough: every size tuple (<= 3 dims) under all four flag combinations] [values handed over as float lists, python ints, int64 / int32 / uint8 / float32 arrays] tuples of dimension sizes (1..4 per dimension, up to 4 dimensions; thorough: ALL such tuples) with non-uniform '
+RULE = ('[also: a generated matrix edited in place by its owner, then generated again] [also: the sequence of the caller re-read after the call and the same sequence written a second time] [also: values not increasing / not distinct; defaults relied upon, tuples, a bare Dimension / int, Dimension(int length), base_name, verbose, a nested parent; thorough: every size tuple (<= 3 dims) under all four flag combinations] [values handed over as float lists, python ints, int64 / int32 / uint8 / float32 arrays] tuples of dimension sizes (1..4 per dimension, up to 4 dimensions; thorough: ALL such tuples) with non-uniform '
         'dyadic values (quarters), labels/units with deliberate repeats, is_spectral in {F,T}, slow_to_fast in {F,T}; '
         'build_ind_val_matrices, make_indices_matrix and write_ind_val_dsets are run for real; non-trivial = at least two '
         'dimensions of size > 1')
@@ -140,6 +140,15 @@ def run_impl(inp, work):
     rp = call(make_indices_matrix, steps_arg) if form.get('defaults') else call(make_indices_matrix, steps_arg, is_position=True)
     out['make'] = {'ok': r[1].tolist(), 'dtype': str(r[1].dtype),
                    'pos_is_transpose': rp[0] == 'ok' and bool(np.array_equal(rp[1], r[1].T))} if r[0] == 'ok' else {'err': r[1]}
+    if r[0] == 'ok':
+        # the caller owns what it was given: editing it in place (e.g. adding an offset for a second block) must not
+        # reach a matrix generated later for the same sizes
+        try:
+            r[1][...] = 77
+        except ValueError:          # a read-only result cannot be edited at all
+            pass
+        r2 = call(make_indices_matrix, steps_arg, is_position=False)
+        out['make']['again_same'] = r2[0] == 'ok' and r2[1].tolist() == out['make']['ok']
     with h5py.File(os.path.join(work, 'a.h5'), 'w') as f:
         def dim_of(d):
             vals = [v / 4.0 for v in d['values']]
@@ -223,6 +232,9 @@ def oracle(inp, obs):
             fails.append('make-raises: make_indices_matrix raised %s for sizes %s' % (m['err'], lens))
         elif m['ok'] != want_ind or not m['pos_is_transpose'] or m['dtype'] != 'uint32':
             fails.append('make-indices: make_indices_matrix%s is not the Cartesian product' % (lens,))
+        elif m.get('again_same') is False:
+            fails.append('make-shared-state: a matrix generated again for the sizes %s differs after the first one was edited '
+                         'in place by its owner' % (lens,))
     elif 'err' not in m:
         fails.append('make-accepts: make_indices_matrix%s returned a matrix for a size-1 entry' % (lens,))
     w = obs['write']
